@@ -46,7 +46,8 @@
  *      ; ev <hook events, each tagged @task>
  *      ; cov P=<n_workers of the report> col=<contracted subgraphs left in memory>
  *            interior=<closes at which something below the closing node was contracted while it stayed>
- * Each setting runs in a forked child (the recorder's own checks call exit(1)).
+ * Each setting runs in a forked child with a 10 s alarm (the recorder's own checks call exit(1);
+ * a recorder gone wrong may crash or loop).
  */
 #define DAG_RECORDER 2
 static int g_cur_worker, g_max_workers;
@@ -445,6 +446,7 @@ int main(int argc, char ** argv) {
         FILE * out = fdopen(fd[1], "w");
         close(fd[0]);
         { int dn = open("/dev/null", 1); if (dn >= 0) { dup2(dn, 2); } }  /* recorder diagnostics */
+        alarm(10);               /* a recorder that walks freed memory may loop for ever */
         run_setting(&sets[i], nw, dir, out);
         fclose(out);
         _exit(0);
